@@ -200,6 +200,35 @@ def check_traversals(maxn):
                     if x.get_root() is not top or x.get_root_side() != "right":
                         fails.append({"shape": repr(sh), "problem": "get_root / get_root_side of a subtree taken over by a new root"})
                         break
+    # look-ups of expression nodes started at EVERY node (not only the root): find_id / find_type / to_list
+    # answer for the receiver's subtree only
+    from treelib import E, gen_trees, realise  # type: ignore
+
+    def sub_in(n, out):
+        if n is None:
+            return out
+        sub_in(n.left, out)
+        out.append(n)
+        sub_in(n.right, out)
+        return out
+
+    for n in range(1, min(maxn, 4) + 1):
+        for t in gen_trees(n):
+            root = realise(t)
+            everything = sub_in(root, [])
+            for x in everything:
+                mine = sub_in(x, [])
+                cases += 1
+                for y in everything:
+                    got = x.find_id(y.id)
+                    want = y if any(z is y for z in mine) else None
+                    if got is not want:
+                        fails.append({"shape": str(root), "problem": f"find_id from `{x}` for the id of `{y}` returned `{got}`"})
+                        break
+                if [id(z) for z in x.find_type(E.MathExpression)] != [id(z) for z in mine]:
+                    fails.append({"shape": str(root), "problem": f"find_type from `{x}` is not the in-order list of its subtree"})
+                if sorted(id(z) for z in x.to_list()) != sorted(id(z) for z in mine):
+                    fails.append({"shape": str(root), "problem": f"to_list from `{x}` is not its subtree"})
     return {"cases": cases, "max_nodes": maxn, "failures": fails[:20], "n_failures": len(fails)}
 
 
